@@ -223,7 +223,7 @@ def main(tier, seed, replay=None):
     r2 = run_tlc('MC_scope', cfg='MC_scope.cfg',
                  cfg_text=config(big, 9, 3, 2),
                  modules={'MC_scope': model(big)}, workers=1, heap='4g',
-                 simulate=1500 if tier == 'quick' else 40000, depth=200,
+                 simulate=3000 if tier == 'quick' else 40000, depth=200,
                  seed=seed + 23, must_succeed=False)
     rep.add_tlc(r2)
     for r0 in (r, r2):
@@ -260,7 +260,9 @@ def main(tier, seed, replay=None):
     names = [c[0] for c in CONFIGS]
     chosen = []
     for j, (t, _, occs) in enumerate(rendered):
-        if tier == 'quick' and len(occs) < 200:
+        if tier == 'quick' and len(occs) < 200 and len(occs) <= 5:
+            # (the short, exhaustively enumerated programs: two rotating
+            # configurations each; the deeper simulated ones get all five)
             chosen.append([names[j % 5], names[(j + 2) % 5]])
         else:
             chosen.append(names)
